@@ -314,7 +314,9 @@ fn run_once(c: &Case) -> (Case, bool) {
     }
     // a connection closed by the server usually means the process is exiting: let it finish
     if closed { std::thread::sleep(std::time::Duration::from_millis(200)); }
-    let drift = r.drift_bad;
+    // a timed-out or refused connection under machine load is retried like clock drift
+    let flaky = out.outs.iter().any(|o| *o == vec![b("TIMEOUT")] || *o == vec![b("NOCONN")]) || out.outs.first() == Some(&vec![i(0)]);
+    let drift = r.drift_bad || flaky;
     if !r.finish() { out.ops.push(vec![b("ALIVE")]); out.outs.push(vec![i(0)]); }
     (out, drift)
 }
@@ -382,6 +384,7 @@ pub fn judge(c: &Case, outs: &[Vec<Tok>]) -> Vec<String> {
                 }
             }
             b"XDEL" if a.len() >= 3 => {
+                if unknown.contains(&a[1]) { continue; }
                 if let (V::Int(n), Some(s)) = (&rep, db.get_mut(&a[1])) {
                     let ids: Option<Vec<Id>> = a[2..].iter().map(|x| parse_id_strict(x)).collect();
                     if let Some(ids) = ids {
